@@ -28,7 +28,7 @@ def run(ctx, out):
         "the weight in 'weight*C/T apart' is the weight, in the unit of the target throughput, of the latest successful request (a runner unit differing from an ops/s target counts as 1 op); "
         "until the first successful request the task runs unthrottled (all scheduled times 0): named in the model, no spacing demanded",
         "ramp-up is only combined with time-based tasks and ramp-up <= warm-up period (enforced by the track loader); iteration counts are exact unless the task is completed externally (then: at most) or aborted by the unit check",
-        "tick-exact runs use dyadic parameters so that float arithmetic is exact; millisecond runs with non-dyadic parameters are rounded to 1 ms and checked with L1 only, tolerance 2 ms; the Poisson distribution itself is not checked (increments are scripted)",
+        "tick-exact runs use dyadic parameters so that float arithmetic is exact; millisecond runs with non-dyadic parameters are rounded to 1 ms and checked with L1 only, tolerance 3 ms; the Poisson distribution itself is not checked (increments are scripted)",
         "loop controls with an unbounded iteration count (parameter source decides the end), runner-provided completion/progress and cancellation are outside the model",
     ]
     cov = clientloop.run_property(
@@ -43,7 +43,7 @@ def run(ctx, out):
             "variant TimerBeforeRampUp=FALSE (loop timer started after the ramp-up sleep) violates C05_WarmupFlagTime in the model, as expected",
         ),
         seed_off=503,
-        n_sim=1200 if ctx.quick else 9000,
+        n_sim=1500 if ctx.quick else 9000,
         n_rand=500 if ctx.quick else 5000,
     )
     for key in ("runs_iteration_based", "runs_time_based", "warmup_requests", "runs_with_straddling_warmup_request", "runs_with_rampup_delay", "runs_completed_externally", "deterministic_gaps", "weight_changes"):
